@@ -8,7 +8,7 @@ SPEC = {
                 nontriv=lambda s: s.n // s.ppn > 1 and s.routing != 'NONE'),
     'C02': dict(prop='Properties_C02.v', kinds=['mixed', 'storm'], oracles=[T.oracle_barrier], gen=[],
                 nontriv=lambda s: any(m.get('parent', -1) >= 0 for u, m in s.meta.items() if isinstance(u, int))),
-    'C03': dict(prop='Properties_C03.v', kinds=['mixed', 'storm', 'masked', 'stream'], oracles=[T.oracle_liveness], gen=[],
+    'C03': dict(prop='Properties_C03.v', kinds=['collective', 'mixed', 'storm', 'masked', 'stream'], oracles=[T.oracle_liveness], gen=[],
                 nontriv=lambda s: s.bufkb <= 1 or s.nirecv == 1 or s.freq == 1),
     'C05': dict(prop='Properties_C05.v', kinds=['mixed'], oracles=[lambda s, r: T.oracle_exactly_once(s, r, kinds=('B', 'M'))], gen=['Gen_layout', 'Gen_bcast'],
                 nontriv=lambda s: any(m['kind'] in ('B', 'M') for u, m in s.meta.items() if isinstance(u, int)) and s.n > 1),
@@ -56,6 +56,12 @@ def run(pid, tier, seed, replay=None):
             msg = 'lock-step: the rank machine and the implementation disagree on %d of %d runs; first: %s | %s' % (
                 len(bad), len(ls), '; '.join(l['mismatches'][:2]), s.text().split('\n')[0])
             state['lockstep_bad'] = [{'scenario': s.text(), 'mismatches': l['mismatches'], 'cmd': l.get('cmd')} for s, l in bad[:5]]
+        illegal = [(s, l) for s, l in ls if l['status'] == 'ok' and l.get('legal', 'ok') != 'ok']
+        if pid == 'C08' and illegal and msg is None:
+            # the main theorem of Properties_C08.v speaks about legal programs only: a generated scenario outside its
+            # hypotheses is a defect of the generator (machinery), reported as a broken tie
+            msg = 'generator produced %d scenarios outside the hypotheses of C08_handlers_never_nest_nor_run_masked (%s): %s' % (
+                len(illegal), illegal[0][1].get('legal'), illegal[0][0].text().split('\n')[0])
         dist = T.distribution(scens, runs)
         nontriv = len({s.key() for s in scens if sp['nontriv'](s)})
         known, real = [], []
@@ -72,7 +78,8 @@ def run(pid, tier, seed, replay=None):
                 'tie': 'D: extracted RankMachine replayed in lock-step (every MPI call, every posted buffer parsed to messages, handler begin/end with depth and masks, byte counters) against %d recorded runs, %d events' % (len(ls), sum(l.get('events', 0) for s, l in ls)),
                 'replay': 'write the scenario text to a file and run: simmpi/simrun <options from the cmd field> -- traffic <file>',
                 'extra': {'distribution': dist, 'lockstep_runs': len(ls), 'lockstep_events': sum(l.get('events', 0) for s, l in ls),
-                          'lockstep_disagreements': state.get('lockstep_bad', [])}}
+                          'lockstep_disagreements': state.get('lockstep_bad', []),
+                          'replayed_scenarios_satisfying_legal_h_and_legal_main': sum(1 for s, l in ls if l.get('legal') == 'ok')}}
     def search():
         found = []
         for k in range(1, 6):
